@@ -209,14 +209,15 @@ pub fn run(args: &Args) {
         eprintln!("no REPLAY lines");
         std::process::exit(2);
     }
-    let stats = run_parallel(&lines, 1, 120, |_| {}, |i, line, st| replay_line(st, &prop, i, line));
+    let stats = run_parallel(&lines, 1, 120, |_| {}, |i, line, st| guard_case(st, &prop, "replay-set", line, |st| replay_line(st, &prop, i, line)));
     finish(stats, args.req("out"), args.req("replay-dir"), json!({"lines": lines.len()}));
 }
 
 pub fn replay_one(v: &Value) -> bool {
     silence_panics();
     let mut st = Stats::default();
-    replay_line(&mut st, v["property"].as_str().unwrap_or("C05"), 0, &v["line"]);
+    let prop = v["property"].as_str().unwrap_or("C05").to_string();
+    guard_case(&mut st, &prop, "replay-set", &v["line"], |st| replay_line(st, &prop, 0, &v["line"]));
     for x in &st.violations {
         println!("reproduced: {}", x.what);
     }
